@@ -228,8 +228,8 @@ def main(args):
     if args.replay:
         with open(args.replay) as f:
             rp = json.load(f)
-        cases = [rp["case"]["hcase"]]
-        texts = {cases[0]["id"]: ("replay", "", base64.b64decode(cases[0]["b64"]))}
+        cases = [rp["case"]["hcase"]] if "hcase" in rp["case"] else []
+        texts = {cases[0]["id"]: ("replay", "", base64.b64decode(cases[0]["b64"]))} if cases else {}
     else:
         cases, texts = gen(run)
     results = run_total(run, cases)
@@ -265,6 +265,19 @@ def main(args):
             sig = "%s:%s" % (what, kind)
             table[(sig,)] += 1
             run.diverge(sig, "%s on %r" % (p[:400], shown), case, None)
+    # requests that depend on an earlier reply: semantic token DELTAS after every one-line edit of small line-structured
+    # documents (TokenEdits.tla, shared with C17, which judges the answers; here only survival counts)
+    if not args.replay or "delta_case" in rp["case"]:
+        import c17
+        dcases = [rp["case"]["delta_case"]] if args.replay else [{"texts": c["texts"], "ops": c["ops"]} for _, c in c17.content_histories(run)]
+        dres = run.harness("semtok", [dict(c, id=str(i)) for i, c in enumerate(dcases)], timeout=3000)
+        for c, res in zip(dcases, dres):
+            run.count(vf.digest(["delta", c["texts"]]), True)
+            if "panic" in res:
+                table[("panic:semanticTokensDelta",)] += 1
+                run.diverge("panic:semanticTokensDelta", "semantic token requests around an edit panicked: %s  [document %r, then %r]" % (
+                    res["panic"][:300], c["texts"].get("1"), c["texts"].get("2")), {"delta_case": c}, None)
+        run.extra["delta_histories"] = len(dcases)
     for cid, what in validate_traces(run, traces):
         fam, lay, b = texts[cid]
         c = [x for x in cases if x["id"] == cid][0]
@@ -283,7 +296,8 @@ def main(args):
     for c in ex:
         run.sample({"text_bytes_b64": c["b64"], "text": texts[c["id"]][2][:80].decode("utf-8", "replace"), "layout": texts[c["id"]][1]})
     run.rule = ("one case per text enumerated by Input.tla (all strings <= N over 28 character-class representatives x 4 placements; all sequences <= K of 20 hostile lexemes x 5 layouts); "
-                "token trace of every text validated by TLC against Lexer.tla; every request at every position for the shorter lengths; distinct by text")
+                "token trace of every text validated by TLC against Lexer.tla; every request at every position for the shorter lengths; semantic token full/delta around every one-line edit "
+                "of the documents of TokenEdits.tla; distinct by text")
     run.assumptions = ["small scope only: the 64 KiB coverage-guided mutation fuzzing of the quantifier is outside this technique family (DESIGN.md section 8)",
                        "deadline per request 1 s + 2 ms per byte; address space of a harness process limited to 12 GiB",
                        "wrong answers are other properties' business; only survival, completion in time and token-stream well-formedness are judged"]
@@ -291,6 +305,9 @@ def main(args):
 
 
 def confirm(run, d):
+    if "delta_case" in d["case"]:
+        res = run.harness("semtok", [dict(d["case"]["delta_case"], id="0")])[0]
+        return "panic" in res
     c = d["case"]["hcase"]
     res = run_total(run, [c], procs=1).get(c["id"])
     if res is None:
